@@ -11,6 +11,7 @@ from . import boot                                    # noqa: F401
 from .runner import CaseResult, Part
 from . import pipesim
 from . import c05_flux
+from . import fluxsim
 
 PID  = 'C05'
 RULE = ('cases = workload of 1-8 tasks in 1-2 bulks (exit codes, optional input staging) x fault plan (per task at '
@@ -101,10 +102,14 @@ def parts(tier):
             # runs longer than its start-up limit (CANCELED only if a timeout was requested and hit)
             Part('startup_report', enum=c07.startup_cases),
             # the Flux executor's event handling: process outcome -> target state
-            Part('flux_events', c05_flux.cases(), quick=400, thorough=3000)]
+            Part('flux_events', c05_flux.cases(), quick=400, thorough=3000),
+            # ... and executor + launch method together: job ids and job events in any order
+            Part('flux_pipeline', fluxsim.cases(), quick=300, thorough=2500)]
 
 
 def normalise(case):
+    if isinstance(case, dict) and case.get('kind') == 'fluxsim':
+        return fluxsim.normalise(case)
     if isinstance(case, dict) and case.get('kind') == 'flux':
         return c05_flux.normalise(case)
     if isinstance(case, dict) and case.get('kind') == 'sweep':
@@ -131,6 +136,8 @@ def normalise(case):
 
 
 def run_case(case):
+    if case.get('kind') == 'fluxsim':
+        return fluxsim.run_case_for(PID, case)
     if case.get('kind') == 'flux':
         return c05_flux.run_case(case)
     if case.get('kind') == 'sweep':
